@@ -12,7 +12,16 @@ configurations of all parts again with the names spelled differently in front of
 source, keyword arguments, mapping keys, client attributes, defaults, template variables: capitalised,
 upper case, mixed case with digits / underscores, long, all names of a case being case variants of ONE
 word) and with the tags in the old <!--#x--> syntax or with the name given as name= attribute; the model
-keeps its own canonical names, so the expectation is the same text.
+keeps its own canonical names, so the expectation is the same text.  Part X gives every tag that takes a
+name OR an expression (var, call, if, elif, unless, with, in, let, return) the same names once by name and
+once by an expression that is nothing but the name, in six spellings ("n", expr="n", "(n)", " n ",
+"_.getitem('n')", expr="_.getitem('n', 0)"): by name the value is called / rendered / cached, by expression the
+tag works on the object itself (a callable object, a callable sequence, a template print / iterate / are
+opened as they are, nothing is called); templates are called from expressions with a client object, the
+namespace and keywords; with blocks open namespaces built by _.namespace(k=v) / _(k=v) / _(mapping, k=v)
+(also block kind withns of parts B / R / N).  Objects that supply names (clients of the call, of a template
+called from an expression, subjects of with, items of in) also come with a false truth value (length 0 /
+__bool__ False): they are objects with attributes all the same.
 Oracle: vlib.c02_util.Model, an interpreter over an ordered list of scopes written from the
 documented priority list and the tag docstrings; output and call trace must both agree.
 """
@@ -64,9 +73,28 @@ RULE = ('part A: exhaustive over the 127 non-empty subsets of the seven concrete
         'kind x style with and without exception modes, every pair of kinds under 3 rotating styles '
         '(thorough: all styles x value kinds; every triple once), every kind / pair of kinds re-entered '
         '(part R) under every / a rotating style; the seeded cases of all parts draw style and syntax '
-        '(lower-case in 40 %, <dtml-> syntax in 70 %). distinct = '
+        '(lower-case in 40 %, <dtml-> syntax in 70 %); block kind withns = <dtml-with "_.namespace(n=src, b=bsrc)"> / '
+        '<dtml-with "_(n=src, b=bsrc)"> (the two spellings alternate with the level), a full member of the kinds of '
+        'parts B, R and N (thorough: every third / second triple holding it); part B also renders every block kind '
+        'that has a subject (in, in mapping, in prefix=, with, with only, with mapping) with the subject given as an '
+        'EXPRESSION that is just its name, x 6 expression spellings x value kind (depth 1), every pair / 8th triple of '
+        'kinds holding such a block with the spelling rotating, and every block kind that takes names from objects '
+        '(in, in prefix=, with, with only; the client of the call) with objects whose truth value is false (length 0 / '
+        '__bool__ False) x value kind; part A again for every subset of the sources holding a client x {length 0, '
+        '__bool__ False, one of each} x 2 of 5 kind patterns (thorough: all) with the client shapes rotating (bare '
+        'object, 1-tuple, 2-tuple, tuple with an attribute-less second object), every 8th systematic history again '
+        'with falsy clients, seeded cases draw the truth value with the variant; part X (name or expression): ONE '
+        'template holding every tag that takes a name or an expression -- var, call, if, elif (after an expression), '
+        'unless, with (over a callable object whose call gives another object), in (over a callable sequence whose '
+        'call gives another sequence), let, return (in a sub-template) -- all in one of 7 forms {by name, "n", '
+        'expr="n", "(n)", " n ", "_.getitem(\'n\')", expr="_.getitem(\'n\', 0)"}, plus a template called from '
+        'expressions as t(o, _), t(None, _, k=n), t(o, _, k=n), with blocks over _.namespace(t=n, u=q), _(t=n, u=xt), '
+        '_(pm, u=q) and a namespace kept by a let block and opened by a with block later; form x winner source x '
+        '{winner alone, winner over all lower sources} x 8 kinds of the winner (thorough: x all 127 subsets) under '
+        'lower-case and one rotating spelling / tag syntax, client truth value and shape rotating, each template '
+        'object called twice, plus seeded (form, subset, kinds, variant, spelling). distinct = '
         'distinct (subset, kinds, variant), history, (nest, value kind, base source, exception mode) or '
-        '(nest, value kind, base source, tree, driver, route, exception, renders, top, own) tuples, each x (spelling, tag syntax); a part-A case is non-trivial when at least two sources define the name or the winner is '
+        '(nest, value kind, base source, tree, driver, route, exception, renders, top, own) or (form, subset, kinds, variant) tuples, each x (spelling, tag syntax); a part-A case is non-trivial when at least two sources define the name or the winner is '
         'callable / template / falsy')
 ASSUMPTIONS = [
     'one lookup by name calls the resolved callable exactly once (call trace compared exactly)',
@@ -87,6 +115,26 @@ ASSUMPTIONS = [
     'can spell); names are case-sensitive (the engine\'s own names REQUEST, URL1, sequence-item ... only '
     'make sense if they are); non-ASCII names, names with "-" or "." are not generated',
     'part N: names the engine defines (sequence-*, error_*) and the probe helper `seen` keep their spelling',
+    'an expression that consists of one name (however it is spelled: "n", expr="n", "(n)", " n ", '
+    '"_.getitem(\'n\')" -- TemplateDict.getitem docstring: without a true second argument the object is returned '
+    'without any attempt to call it) yields the object bound to the name as it is; var inserts str() of it (the '
+    'harness objects print UNCALLED:<name> / UNRENDERED:<name> / obj:<name>), if / elif / unless test its truth '
+    'value and bind nothing, with opens its attributes, in iterates it, call evaluates and discards it, return '
+    'makes it the result of the template (inserted by the caller like any value)',
+    'a lookup BY NAME calls a callable object / sequence exactly once and the tag (with, in, return, call) works '
+    'on the result (statement: a callable value is called when looked up by name in a tag)',
+    '_.namespace(k=v, ...) and _(k=v, ...) give an object whose attributes are the keyword values (DT_Util.namespace '
+    'docstring); the values were read by the expression, so inside the with block k is bound to the object itself: '
+    'by name it is called / rendered with the CURRENT namespace, an expression gets it uncalled.  The positional '
+    'form _(mapping, k=v) is only used with plain values and without a name given twice: on the unchanged engine it '
+    'hands callables over already called and renders templates against the private namespace, which the statement '
+    'does not cover (reported as an observation, not asserted)',
+    'a template called from an expression as t(client, _, **kw) sees the current namespace (the mapping is the '
+    'namespace itself) with its own defaults, the client object and the keywords on top (String.__call__ '
+    'docstring order: keywords, client, mapping); no probed name is defined both in its defaults and elsewhere',
+    'an object supplies its attributes as names whatever its truth value (String.__call__ docstring: "client is '
+    'used to specify a object containing values to be looked up"; nothing excepts empty or false objects); falsy '
+    'nodes of the part-R trees are not generated (the nxt driver tests them)',
     '<dtml-in seq prefix=p> binds p_item / p_index / p_number next to sequence-item / -index / -number for '
     'the body only (DT_InSV test__setitem__getitem__ documents the alias; same reading as C08 / C10)',
     'a bare name in a tag is the documented shorthand of the name= attribute (DT_Util name_param: "name '
@@ -101,8 +149,12 @@ SOURCES = ['kw', 'vars', 'client_last', 'client_first', 'mapping', 'ctor_kw', 'c
 KINDS3 = ['plain', 'call', 'tmpl']
 FALSY = ['zero', 'empty', 'none', 'fcall', 'fret']
 NEST_KINDS = ['in', 'inmap', 'inpfx', 'with', 'only', 'withmap', 'let', 'letx', 'if', 'ifelse', 'elif',
-              'xelif', 'unless', 'try']
+              'xelif', 'unless', 'try', 'withns']
 LOOPS = ('in', 'inmap', 'inpfx')
+SUBJECT_KINDS = ('in', 'inmap', 'inpfx', 'with', 'only', 'withmap')   # blocks over a subject: name or expression
+OBJECT_KINDS = ('in', 'inpfx', 'with', 'only')      # ... whose namespace is taken from the attributes of objects
+EX_STYLES = U.EX_STYLES
+TRUTHS = [None, 'len0', 'false']                    # truth value of an object that supplies names
 STYLES = U.STYLES                 # spellings of the names; 0 = the generator's own lower-case names
 SYNTAXES = U.SYNTAXES
 IFLIKE = ('if', 'ifelse', 'elif', 'xelif', 'unless')
@@ -214,6 +266,7 @@ class Session:
         self.t = C[cls](self.src, cmap, **real.get('ctor_kw', {}))
         self.exp_vars = {}
         self.shape = None
+        self.client_truth = None
         self.calls_made = 0
 
     def set_vars(self, scope):
@@ -249,10 +302,16 @@ class Session:
         exp = model.render(self.ast, stack)
         variant = self.variant
         first = last = None
+        # variant bits 16 / 32: the truth value of the client objects (an object whose length is 0
+        # or whose __bool__ says False is a client like any other)
+        tf = (variant >> 4) & 3
+        self.client_truth = None
         if 'client_first' in scopes:
-            first = rz.real(U.Obj('client_first', scopes['client_first']))
+            first = rz.real(U.Obj('client_first', scopes['client_first'], (None, 'len0', 'false', 'false')[tf]))
         if 'client_last' in scopes:
-            last = rz.real(U.Obj('client_last', scopes['client_last']))
+            last = rz.real(U.Obj('client_last', scopes['client_last'], (None, 'len0', 'false', 'len0')[tf]))
+        if tf and (first is not None or last is not None):
+            self.client_truth = ('', 'len0', 'false', 'mixed')[tf]
         if first is not None and last is not None:
             client, shape = (first, last), 'tuple(first,last)'
         elif last is not None:
@@ -359,6 +418,10 @@ def run_a(ctx, mask, kinds, pad, variant, cls, tag='grid', sp=0, syntax='html'):
             ctx.table('A subsets rendered', '%03d' % mask)
             ctx.table('A winner source x kind', '%s/%s' % (members[0], winner_kind))
             ctx.table('A client shape', sess.shape)
+            if sess.client_truth and not problems:
+                ctx.table('A falsy client (shape/truth)', '%s/%s' % (sess.shape, sess.client_truth))
+                if members[0] in ('client_last', 'client_first'):
+                    ctx.count('A:renders won by a falsy client object')
             ctx.table('A defining sources', len(members))
         else:
             ctx.count('A:follow-up calls on the same template object')
@@ -382,6 +445,141 @@ def run_a(ctx, mask, kinds, pad, variant, cls, tag='grid', sp=0, syntax='html'):
         names_evidence(ctx, 'A', sp, syntax, model, ['src:' + m for m in members] + AST_A_CONSTRUCTS[cls])
     ctx.count('A:sub-template invocations', model.subcalls)
     ctx.count('A:lookups shadowing a lower source', model.shadowed)
+
+
+# ------------------------------------------------------------------ part X: name or expression
+X_FORMS = ['name'] + EX_STYLES
+X_KINDS = KINDS3 + FALSY
+X_TAGS = ['var', 'call', 'if', 'elif', 'unless', 'with', 'in', 'let', 'return']
+
+
+def source_scope_x(s, kind, xs, truth=None):
+    """What one source defines for the part-X template: the probed name n of the given kind,
+    q and d as in part A, and
+      o   a CALLABLE object with an attribute a; calling it gives another object (attributes a, r);
+      s   a CALLABLE sequence of two objects; calling it gives another sequence (one object);
+      pm  a mapping of plain values;   xt  a template with a default of its own;
+      rsub  a template that ends with <dtml-return n> / <dtml-return "n">."""
+    P, T = U.Probe, U.Text
+    sc = source_scope(s, kind)
+    sc['o'] = U.Obj('o:' + s, {'a': U.Plain('a@own:' + s)}, truth,
+                    U.Obj('ores:' + s, {'a': U.Plain('a@res:' + s), 'r': U.Plain('r@res:' + s)}))
+    sc['s'] = U.Seq('s:' + s, [U.Obj('it@own.%d:%s' % (i, s), {'a': U.Plain('a@own.%d:%s' % (i, s))}, truth)
+                               for i in range(2)],
+                    U.Seq('sres:' + s, [U.Obj('it@res:' + s, {'a': U.Plain('a@res.0:' + s)})]))
+    sc['pm'] = U.Map('pm:' + s, {'pa': U.Plain('pa:' + s)})
+    sc['xt'] = U.Tmpl('xt:' + s, [T('{xt:%s|' % s), P('name', 'q', True), P('miss', 'a', True),
+                                  P('miss', 'k', True), P('name', 'xd', True), T('}')],
+                      {'xd': U.Plain('xd:' + s)})
+    sc['rsub'] = U.Tmpl('rsub:' + s, [T('{r|'), P('name', 'q', True),
+                                      U.Return('n' if xs == 'name' else U.Ex('n', xs)), T('unreached}')])
+    return sc
+
+
+def ast_x(xs):
+    """Every tag that takes a name OR an expression, on the same names, in ONE form: xs == 'name':
+    by name (the value is called / rendered, if-tags cache it); else by an expression that is
+    just the name, spelled in style xs (the tag works on the object itself, nothing is called,
+    nothing is cached).  Then: the template xt called from expressions with a client object, the
+    namespace and keywords; with blocks over namespaces built by _.namespace() / _()."""
+    P, T = U.Probe, U.Text
+    byname = xs == 'name'
+    X = (lambda nm: nm) if byname else (lambda nm: U.Ex(nm, xs))
+    grp = [P('name', 'n'), P('expr', 'n')]
+    ast = [T('V'), P('name', 'n') if byname else P('xvar', X('n')),
+           T('C'), P('call', 'n') if byname else P('xcall', X('n')),
+           T('I'), U.If(X('n'), [T('T')] + grp, [T('F')] + grp),
+           T('J'), U.If(U.Lit(0), [T('never')], [T('E')] + grp, elifs=[(X('n'), [T('G')] + grp)]),
+           T('U'), U.Unless(X('n'), [T('u')] + grp),
+           T('W'), U.With(X('o'), 'inst', [P('miss', 'a'), P('miss', 'r'), P('name', 'n')]),
+           T('S'), U.In(X('s'), False, [P('miss', 'a'), P('miss', 'sequence-index')]),
+           T('L'), U.Let([('t', 'name', 'n')] if byname else [('t', 'expr', X('n'))],
+                         [P('name', 't'), P('expr', 't')]),
+           T('R'), P('name', 'rsub'),
+           T('K'), U.SubCall('xt', 'o'), U.SubCall('xt', None, [('k', 'n')]),
+           U.SubCall('xt', 'o', [('k', 'n')]),
+           T('N'), U.With(U.Ns('namespace', [('t', 'n'), ('u', 'q')]), 'inst',
+                          [P('name', 't'), P('expr', 't'), P('name', 'u'), P('name', 'n')]),
+           U.With(U.Ns('under', [('t', 'n'), ('u', 'xt')]), 'inst',
+                  [P('name', 't'), P('expr', 't'), P('name', 'u')]),
+           U.With(U.Ns('pos', [('u', 'q')], 'pm'), 'inst', [P('name', 'u'), P('name', 'pa'), P('name', 'n')]),
+           # the namespace object kept under a name by a let block and opened later by a with block
+           U.Let([('ns', 'expr', U.Ns('namespace', [('t', 'n'), ('u', 'd')]))],
+                 [P('name', 'n'), U.With(X('ns'), 'inst', [P('name', 't'), P('expr', 't'), P('name', 'u')])]),
+           T('Q'), P('name', 'q')]
+    return ast
+
+
+def run_x(ctx, xs, mask, kinds, variant, sp=0, syntax='html'):
+    """One precedence configuration (as in part A) under the part-X template in form xs; the
+    template object is called twice."""
+    members = [s for i, s in enumerate(SOURCES) if mask >> i & 1]
+    case = {'part': 'X', 'xs': xs, 'mask': mask, 'kinds': list(kinds), 'variant': variant,
+            'sp': sp, 'syntax': syntax}
+    ctx.case(('X', xs, mask, tuple(kinds), variant, sp, syntax), True)
+    truth = (None, 'len0', 'false', 'len0')[(variant >> 4) & 3]
+    scopes = dict((s, source_scope_x(s, k, xs, truth)) for s, k in zip(members, kinds))
+    sess = Session('H', ast_x(xs), dict((s, scopes[s]) for s in ('ctor_kw', 'ctor_map') if s in scopes),
+                   variant, sp, syntax)
+    if 'vars' in scopes:
+        sess.set_vars(scopes['vars'])
+    full = dict((s, scopes[s]) for s in Session.CALL_SOURCES if s in scopes)
+    model = sess.model
+    for label in ('first', 'again'):
+        exp, out, problems = sess.call(full)
+        ctx.count('X:renders')
+        if problems:
+            ctx.violation('%s call, tags given %s: %s'
+                          % (label, 'a name' if xs == 'name' else 'an expression (style %s)' % xs,
+                             '; '.join(problems)), dict(case, step=label),
+                          key='X_%s_%d_%s' % (xs, mask, '-'.join(kinds)) + key_suffix(sp, syntax),
+                          detail={'source': sess.src, 'expected': U.segments_text(exp),
+                                  'observed': short(out, 1500) if out is not None else None,
+                                  'expected_calls': model.trace, 'observed_calls': sess.rec.calls(),
+                                  'sources': members})
+            return
+    ctx.table('X winner kind x form', '%s/%s' % (kinds[0], xs))
+    ctx.table('X winner source x form', '%s/%s' % (members[0], xs))
+    for tag in X_TAGS:
+        ctx.table('X tag x form', '%s/%s' % (tag, xs))
+    for st, n in model.exprs.items():
+        ctx.table('X expressions evaluated (style)', st, n)
+    for f, n in model.probes.items():
+        ctx.count('X:probes ' + f, n)
+    ctx.count('X:callable objects / sequences called by a lookup by name', model.container_calls)
+    ctx.count('X:templates ended by dtml-return', model.returns)
+    ctx.count('X:sub-template invocations', model.subcalls)
+    ctx.count('X:namespaces taken from a falsy object', model.falsy_objects)
+    ctx.count('X:calls expected', len(model.trace))
+    if truth:
+        ctx.table('X falsy client of a template called from an expression', truth)
+    names_evidence(ctx, 'X', sp, syntax, model, ['src:' + m for m in members])
+
+
+def configs_x(tier):
+    """form x winner source x {the winner alone, the winner over every lower source} x kind of the
+    winner (thorough: form x every subset x kind of the winner); spelling, tag syntax, client
+    shape and truth value rotate."""
+    out = []
+    i = 0
+    for xs in X_FORMS:
+        if tier == 'thorough':
+            masks = list(range(1, 128))
+        else:
+            masks = []
+            for w in range(7):
+                for m in (1 << w, (127 >> w) << w):
+                    if m not in masks:
+                        masks.append(m)
+        for mask in masks:
+            k = bin(mask).count('1')
+            for kind in X_KINDS:
+                i += 1
+                kinds = (kind,) + tuple(KINDS3[(j + i) % 3] for j in range(k - 1))
+                out.append((xs, mask, kinds, i % 64, 0, SYNTAXES[i % 3]))
+                out.append((xs, mask, kinds, (i // 2) % 64, 1 + i % (len(STYLES) - 1),
+                            SYNTAXES[(i // 6) % 3]))
+    return out
 
 
 # ------------------------------------------------------------------ part H: call histories
@@ -408,6 +606,8 @@ def run_h(ctx, hist):
         call_scopes = dict((s, source_scope(s, k, tag)) for s, k in step['call'].items())
         exp, out, problems = sess.call(call_scopes)
         ctx.count('H:calls')
+        if sess.client_truth and not problems:
+            ctx.count('H:calls with a falsy client object')
         ctx.table('H call position', i)
         if i and 'kw' in hist['steps'][i - 1]['call'] and 'kw' not in step['call']:
             ctx.count('H:calls without keywords after a call with keywords')
@@ -486,7 +686,7 @@ def random_history(rng):
         if not (ctor or vdef or call):
             call = {rng.choice(Session.CALL_SOURCES): rng.choice(allk)}
         steps.append({'vars': v, 'call': call})
-    return {'cls': rng.choice(['H', 'H', 'HTML']), 'variant': rng.randint(0, 15),
+    return {'cls': rng.choice(['H', 'H', 'HTML']), 'variant': rng.randint(0, 63),
             'ctor': ctor, 'steps': steps}
 
 
@@ -550,6 +750,40 @@ def configs_a(tier):
     return out
 
 
+def configs_a_truth(tier):
+    """Every subset of the sources that holds a client object, rendered with client objects whose
+    truth value is false (length 0 / __bool__ False / one of each) x kind patterns: the client
+    shapes (bare object, 1-tuple, 2-tuple, tuple with an attribute-less second object) rotate
+    with the variant."""
+    out = []
+    i = 0
+    for mask in range(1, 128):
+        if not mask & 0b1100:
+            continue
+        k = bin(mask).count('1')
+        rot = tuple(KINDS3[(j + mask) % 3] for j in range(k))
+        pats = [(KINDS3[0],) * k, (KINDS3[1],) * k, (KINDS3[2],) * k, rot, (FALSY[mask % 5],) + rot[1:]]
+        for tf in (1, 2, 3):
+            for pi, kinds in enumerate(pats):
+                i += 1
+                if tier != 'thorough' and (pi + tf + mask) % 5 >= 2:
+                    continue
+                cls = ['H', 'HTML', 'String'][i % 3] if len(set(kinds)) == 1 else 'H'
+                out.append((mask, kinds, i & 1, (i // 3) % 16 | tf << 4, cls, 'truth'))
+    return out
+
+
+def configs_h_truth(tier):
+    """Every 8th systematic history again with falsy client objects."""
+    out = []
+    c = 0
+    for j, hist in enumerate(configs_h(tier)):
+        if j % 8 == 5:
+            c += 1
+            out.append(dict(hist, variant=hist['variant'] | (1 + c % 3) << 4))
+    return out
+
+
 # ================================================================== spelling evidence
 def key_suffix(sp, syntax):
     """Replay files of one configuration under different spellings do not overwrite each other."""
@@ -592,8 +826,15 @@ REC_DRIVERS = ['kids', 'nxt']
 REC_TD = [('kids', 'chain3'), ('kids', 'fork'), ('kids', 'demo'), ('nxt', 'chain3'), ('nxt', 'chain2')]
 
 
-def build_nest(kinds, vk, exc=None, rec=None):
+def build_nest(kinds, vk, exc=None, rec=None, alt=None):
     """-> (ast, base scope dict of specs).  Level L (1-based) uses kinds[L-1].
+
+    alt = None, or {'x': None | expression style, 'truth': None | 'len0' | 'false'}: x: the
+    subjects of the in / with blocks are given as an EXPRESSION that is just the subject's name
+    (<dtml-in "seq1">, <dtml-with expr="obj1"> ...; the subjects are plain containers, so name
+    and expression denote the same object); truth: the objects whose attributes the blocks bind
+    (items of in, subjects of with / with only) have a false truth value (a length of 0 / a
+    __bool__ saying False) -- they are objects with attributes all the same.
 
     rec = None, or {'tree': nested lists, 'driver': 'kids' | 'nxt', 'route': 'direct' | 'hop' |
     'hoplet', 'doom': 0 | 1}: the nest becomes the template `self`, which between the two probe
@@ -617,6 +858,12 @@ def build_nest(kinds, vk, exc=None, rec=None):
     enclosing block: whatever the unwound blocks / sub-template bound must be gone."""
     D = len(kinds)
     P, T = U.Probe, U.Text
+    alt = alt or {}
+    truth = alt.get('truth')
+
+    def S(name):
+        """The subject of a block: by name, or by an expression that is the name."""
+        return U.Ex(name, alt['x']) if alt.get('x') else name
     base = {'seen': U.Helper('seen')}
     sub_ast = [T('{sub|'), P('name', 'n', True)]
     for lv in range(1, D + 1):
@@ -684,11 +931,11 @@ def build_nest(kinds, vk, exc=None, rec=None):
                     attrs = {'n': nest_value(lv, '%s.%d%s' % (k, i, g), vk, D),
                              b: U.Plain('%s@%s.%d%s' % (b, k, i, g))}
                     nm = 'item%d.%d%s' % (lv, i, g)
-                    items.append(U.Map(nm, attrs) if k == 'inmap' else U.Obj(nm, attrs))
+                    items.append(U.Map(nm, attrs) if k == 'inmap' else U.Obj(nm, attrs, truth))
                 subjects['seq%d' % lv] = U.Seq('seq%d%s' % (lv, g), items)
             elif k in ('with', 'only'):
                 o = U.Obj('obj%d%s' % (lv, g), {'n': nest_value(lv, k + g, vk, D),
-                                                b: U.Plain('%s@%s%s' % (b, k, g))})
+                                                b: U.Plain('%s@%s%s' % (b, k, g))}, truth)
                 subjects['obj%d' % lv] = o
                 if k == 'only':
                     only_objs.append(o)
@@ -697,6 +944,9 @@ def build_nest(kinds, vk, exc=None, rec=None):
                                                                     b: U.Plain('%s@%s%s' % (b, k, g))})
             elif k in ('let', 'letx'):
                 subjects['src%d' % lv] = nest_value(lv, k + g, vk, D)
+            elif k == 'withns':
+                subjects['src%d' % lv] = nest_value(lv, k + g, vk, D)
+                subjects['bsrc%d' % lv] = U.Plain('%s@%s%s' % (b, k, g))
             elif k == 'if':
                 subjects['c%d' % lv] = U.Call('c%d%s' % (lv, g))
             elif k in ('ifelse', 'unless'):
@@ -792,13 +1042,18 @@ def build_nest(kinds, vk, exc=None, rec=None):
         b = 'b%d' % lv
         c = 'c%d' % lv
         if k in LOOPS:
-            blk = [U.In('seq%d' % lv, k == 'inmap', body, 'p%d' % lv if k == 'inpfx' else None)]
+            blk = [U.In(S('seq%d' % lv), k == 'inmap', body, 'p%d' % lv if k == 'inpfx' else None)]
         elif k == 'with':
-            blk = [U.With('obj%d' % lv, 'inst', body)]
+            blk = [U.With(S('obj%d' % lv), 'inst', body)]
         elif k == 'only':
-            blk = [U.With('obj%d' % lv, 'only', body)]
+            blk = [U.With(S('obj%d' % lv), 'only', body)]
         elif k == 'withmap':
-            blk = [U.With('map%d' % lv, 'mapping', body)]
+            blk = [U.With(S('map%d' % lv), 'mapping', body)]
+        elif k == 'withns':
+            # the namespace object is built by an expression from the `_` helper: _.namespace(n=src, b=bsrc)
+            # or _(n=src, b=bsrc); the expression reads src, so n is bound to the object itself
+            style = ('namespace', 'under')[(lv + D + KINDS3.index(vk)) % 2]
+            blk = [U.With(U.Ns(style, [('n', 'src%d' % lv), (b, 'bsrc%d' % lv)]), 'inst', body)]
         elif k == 'let':
             blk = [U.Let([('n', 'name', 'src%d' % lv), (b, 'name', 'n')], body)]
         elif k == 'letx':
@@ -839,12 +1094,14 @@ def build_nest(kinds, vk, exc=None, rec=None):
     return ast, base
 
 
-def run_b(ctx, kinds, vk, bs, exc=None, sp=0, syntax='html'):
+def run_b(ctx, kinds, vk, bs, exc=None, sp=0, syntax='html', alt=None):
     case = {'part': 'B', 'kinds': list(kinds), 'vk': vk, 'bs': bs, 'exc': list(exc) if exc else None,
-            'sp': sp, 'syntax': syntax}
-    ctx.case(('B', tuple(kinds), vk, bs, exc) + ((sp, syntax) if sp or syntax != 'html' else ()), True)
+            'sp': sp, 'syntax': syntax, 'alt': alt}
+    ctx.case(('B', tuple(kinds), vk, bs, exc) + ((sp, syntax) if sp or syntax != 'html' else ())
+             + ((repr(sorted(alt.items())),) if alt else ()), True)
     C = classes()
-    ast, base = build_nest(kinds, vk, exc)
+    ast, base = build_nest(kinds, vk, exc, None, alt)
+    truth = (alt or {}).get('truth')
     loser = {'n': U.Plain('n@loser')} if bs != 'ctor_map' else None
     model = U.Model()
     stack = [loser, base] if loser else [base]
@@ -854,6 +1111,8 @@ def run_b(ctx, kinds, vk, bs, exc=None, sp=0, syntax='html'):
     rz = U.Realizer(rec, C['HTML'], spell, syntax)
     src = U.to_dtml(ast, syntax, spell)
     xk = '%s@%d' % (exc[1], exc[0]) if exc else 'none'
+    if alt:
+        xk += '_alt-%s-%s' % (alt.get('x'), truth)
     try:
         rb = rz.real_scope(base)
         rl = rz.real_scope(loser) if loser else None
@@ -869,7 +1128,7 @@ def run_b(ctx, kinds, vk, bs, exc=None, sp=0, syntax='html'):
             t.var(**rb)
             out = t()
         elif bs == 'client':
-            out = t(rz.real(U.Obj('client', base)))
+            out = t(rz.real(U.Obj('client', base, truth)))
         elif bs == 'mapping':
             out = t(None, rb)
         else:
@@ -899,6 +1158,16 @@ def run_b(ctx, kinds, vk, bs, exc=None, sp=0, syntax='html'):
     ctx.count('B:probes not asserted (absent name under with-only)', model.wild)
     ctx.count('B:calls expected', len(model.trace))
     problems = compare(exp, model.trace, out, rec)
+    ctx.count('B:expressions evaluated as the subject of a block', sum(model.exprs.values()))
+    if not problems and alt:
+        ctx.count('B:renders with block subjects given by expression / falsy objects')
+        for k in kinds:
+            if alt.get('x') and k in SUBJECT_KINDS:
+                ctx.table('B subject by expression (block kind/style)', '%s/%s' % (k, alt['x']))
+            if truth and k in OBJECT_KINDS:
+                ctx.table('B names from a falsy object (block kind/truth)', '%s/%s' % (k, truth))
+        if truth and bs == 'client':
+            ctx.table('B names from a falsy object (block kind/truth)', 'client/%s' % truth)
     if not problems:
         names_evidence(ctx, 'B', sp, syntax, model, list(kinds) + ['src:' + bs, 'sub-template defaults'])
     if problems:
@@ -1085,6 +1354,8 @@ def configs_r(tier):
     if tier == 'thorough':
         for kinds in itertools.product(NEST_KINDS, repeat=3):
             i += 1
+            if 'withns' in kinds and i % 2:
+                continue
             driver, tree = REC_TD[i % 5]
             out.append((kinds, KINDS3[i % 3], BASE_SOURCES[i % 6],
                         {'tree': fit_tree(kinds, driver, TREES[tree]), 'driver': driver,
@@ -1128,6 +1399,8 @@ def configs_b(tier):
         for kinds in itertools.product(NEST_KINDS, repeat=d):
             for vk in KINDS3:
                 i += 1
+                if d == 3 and 'withns' in kinds and i % 3:
+                    continue        # triples with the namespace-expression block: every third
                 if tier == 'thorough':
                     sources = BASE_SOURCES if d < 3 else [BASE_SOURCES[i % 6], BASE_SOURCES[(i + 3) % 6]]
                 else:
@@ -1142,6 +1415,40 @@ def configs_b(tier):
                         if tier == 'thorough' and d == 3 and (i + x) % 2:
                             continue
                         out.append((kinds, vk, BASE_SOURCES[(i + x) % 6], (j, raiser)))
+    # block subjects given by an expression that is just the name; names from falsy objects
+    j = 0
+    for kinds in itertools.product(NEST_KINDS, repeat=1):
+        if kinds[0] not in SUBJECT_KINDS:
+            continue
+        for xi, xs in enumerate(EX_STYLES):
+            for vk in (KINDS3 if tier == 'thorough' else [KINDS3[(xi + j) % 3]]):
+                j += 1
+                exc = (None, (1, 'boom'), (2, 'rsub'))[j % 3]
+                out.append((kinds, vk, BASE_SOURCES[j % 6], exc, 0, 'html', {'x': xs, 'truth': None}))
+        if kinds[0] in OBJECT_KINDS:
+            for truth in TRUTHS[1:]:
+                for vk in KINDS3:
+                    j += 1
+                    exc = (None, (1, 'rsub'), (2, 'boom'))[j % 3]
+                    out.append((kinds, vk, ('client', BASE_SOURCES[j % 6])[j % 2], exc, 0, 'html',
+                                {'x': EX_STYLES[j % 6] if j % 4 == 0 else None, 'truth': truth}))
+    q = 0
+    for d in range(2, maxd + 1):
+        for kinds in itertools.product(NEST_KINDS, repeat=d):
+            if not any(k in SUBJECT_KINDS for k in kinds):
+                continue
+            q += 1
+            if d == 3 and q % 8:
+                continue
+            for vk in (KINDS3 if tier == 'thorough' and d == 2 else [KINDS3[j % 3]]):
+                j += 1
+                exc = None if j % 2 else (1 + j % (d + 1), ('boom', 'rsub')[(j // 2) % 2])
+                out.append((kinds, vk, BASE_SOURCES[j % 6], exc, 0, 'html',
+                            {'x': EX_STYLES[j % 6], 'truth': None}))
+                if any(k in OBJECT_KINDS for k in kinds):
+                    out.append((kinds, vk, ('client', BASE_SOURCES[(j + 1) % 6])[j % 2], exc, 0, 'html',
+                                {'x': EX_STYLES[(j // 6) % 6] if j % 3 == 0 else None,
+                                 'truth': TRUTHS[1 + j % 2]}))
     return out
 
 
@@ -1219,6 +1526,8 @@ def configs_n(tier):
     if thorough:
         for kinds in itertools.product(NEST_KINDS, repeat=3):
             i += 1
+            if 'withns' in kinds and i % 2:
+                continue
             sp = i % ns
             syntax = SYNTAXES[1 + (i // ns) % 2 if sp == 0 else (i // ns) % 3]
             out.append(('B', (kinds, KINDS3[i % 3], BASE_SOURCES[i % 6],
@@ -1244,18 +1553,27 @@ def configs_n(tier):
 
 # ================================================================== driver hooks
 def anchors():
+    """Entry counts of engine internals: diagnosis only (a refactoring may rename them; the
+    verdict rests on the output comparisons)."""
     from DocumentTemplate import DT_String, DT_With, DT_Let, DT_In, DT_Try, DT_Util
     from DocumentTemplate import _DocumentTemplate as DT
-    return [('String.__call__', DT_String.String.__call__),
-            ('TemplateDict.getitem', DT.TemplateDict.getitem),
-            ('TemplateDict.__getitem__', DT.TemplateDict.__getitem__),
-            ('InstanceDict.__getitem__', DT.InstanceDict.__getitem__),
-            ('render_blocks_', DT.render_blocks_),
-            ('With.render', DT_With.With.render),
-            ('Let.render', DT_Let.Let.render),
-            ('InClass.renderwob', DT_In.InClass.renderwob),
-            ('Try.render_try_except', DT_Try.Try.render_try_except),
-            ('Eval.eval', DT_Util.Eval.eval)]
+    out = []
+    for label, holder, path in (('String.__call__', DT_String, 'String.__call__'),
+                                ('TemplateDict.getitem', DT, 'TemplateDict.getitem'),
+                                ('TemplateDict.__getitem__', DT, 'TemplateDict.__getitem__'),
+                                ('InstanceDict.__getitem__', DT, 'InstanceDict.__getitem__'),
+                                ('render_blocks_', DT, 'render_blocks_'),
+                                ('With.render', DT_With, 'With.render'),
+                                ('Let.render', DT_Let, 'Let.render'),
+                                ('InClass.renderwob', DT_In, 'InClass.renderwob'),
+                                ('Try.render_try_except', DT_Try, 'Try.render_try_except'),
+                                ('Eval.eval', DT_Util, 'Eval.eval')):
+        f = holder
+        for part in path.split('.'):
+            f = getattr(f, part, None)
+        if f is not None:
+            out.append((label, f))
+    return out
 
 
 def run(ctx, spec):
@@ -1277,10 +1595,26 @@ def run(ctx, spec):
             k = bin(mask).count('1')
             kinds = tuple(rng.choice(allk) for _ in range(k))
             ctx.count('A:seeded mixed assignments')
-            run_a(ctx, mask, kinds, rng.randint(0, 1), rng.randint(0, 15),
+            run_a(ctx, mask, kinds, rng.randint(0, 1), rng.randint(0, 63),
                   rng.choice(['H', 'H', 'HTML']), 'seeded', *pick_spelling(rng))
+        for i, cfg in enumerate(configs_a_truth(ctx.tier)):
+            if i % ctx.nshards == ctx.shard:
+                ctx.count('A:configurations rendered with falsy client objects')
+                run_a(ctx, *cfg)
+        for i, cfg in enumerate(configs_x(ctx.tier)):
+            if i % ctx.nshards == ctx.shard:
+                run_x(ctx, *cfg)
+        for _ in range((320 if ctx.tier == 'quick' else 3200) // ctx.nshards):
+            ctx.count('X:seeded configurations')
+            mask = rng.randint(1, 127)
+            kinds = tuple(rng.choice(allk) for _ in range(bin(mask).count('1')))
+            run_x(ctx, rng.choice(X_FORMS), mask, kinds, rng.randint(0, 63), *pick_spelling(rng))
         for i, hist in enumerate(configs_h(ctx.tier)):
             if i % ctx.nshards == ctx.shard:
+                run_h(ctx, hist)
+        for i, hist in enumerate(configs_h_truth(ctx.tier)):
+            if i % ctx.nshards == ctx.shard:
+                ctx.count('H:histories rendered again with falsy client objects')
                 run_h(ctx, hist)
         for _ in range((480 if ctx.tier == 'quick' else 16000) // ctx.nshards):
             ctx.count('H:seeded histories')
@@ -1316,9 +1650,9 @@ def finish(agg):
     if missing:
         inc.append('%d of the 127 source subsets were never rendered (first: %s)'
                    % (len(missing), missing[:5]))
-    for label, _f in ANCHOR_LABELS:
-        if not c.get('reach:' + label):
-            inc.append('anchor never entered: ' + label)
+    # entry counts of engine internals are diagnosis: a renamed / rewired function shows up in
+    # the coverage notes, the verdict rests on the output-level comparisons below
+    unreached = [label for label, _f in ANCHOR_LABELS if not c.get('reach:' + label)]
     for k in ('A:probes name', 'A:probes entity', 'A:probes expr', 'A:probes miss',
               'B:probes name', 'B:probes entity', 'B:probes expr', 'B:probes miss',
               'A:sub-template invocations', 'B:sub-template invocations',
@@ -1379,7 +1713,7 @@ def finish(agg):
             for k in constructs:
                 if not t.get(table, {}).get('%s/%s' % (k, v)):
                     inc.append('%s never compared under %s %s' % (k, dim, v))
-    for part in 'AHBR':
+    for part in 'AHBRX':
         for v in STYLES:
             if not t.get('N part x spelling', {}).get('%s/%s' % (part, v)):
                 inc.append('part %s never rendered under spelling %s' % (part, v))
@@ -1388,15 +1722,57 @@ def finish(agg):
         for k in KINDS3 + FALSY:
             if not wk.get('%s/%s' % (s, k)):
                 inc.append('winner %s of kind %s never rendered' % (s, k))
+    # falsy client objects: every client shape x truth value compared, also as the winner
+    fc = t.get('A falsy client (shape/truth)', {})
+    for shape in ('bare', 'tuple(last)', 'tuple(first)', 'tuple(first,last)', 'tuple(first,empty)'):
+        for tr in ('len0', 'false') + (('mixed',) if shape == 'tuple(first,last)' else ()):
+            if not fc.get('%s/%s' % (shape, tr)):
+                inc.append('client shape %s never compared with a client whose truth value is %s' % (shape, tr))
+    for k in ('A:renders won by a falsy client object', 'H:calls with a falsy client object',
+              'B:renders with block subjects given by expression / falsy objects',
+              'B:expressions evaluated as the subject of a block'):
+        if not c.get(k):
+            inc.append('monitor never evaluated: ' + k)
+    bx = t.get('B subject by expression (block kind/style)', {})
+    for k in SUBJECT_KINDS:
+        for st in EX_STYLES:
+            if not bx.get('%s/%s' % (k, st)):
+                inc.append('block kind %s never compared with its subject given as an expression in style %s' % (k, st))
+    bt = t.get('B names from a falsy object (block kind/truth)', {})
+    for k in OBJECT_KINDS + ('client',):
+        for tr in TRUTHS[1:]:
+            if not bt.get('%s/%s' % (k, tr)):
+                inc.append('%s never compared with names coming from an object whose truth value is %s' % (k, tr))
+    # part X: the deciding comparisons are output and call trace of the name-or-expression template
+    for k in ('X:renders', 'X:probes xvar', 'X:probes xcall', 'X:probes subcall', 'X:probes name', 'X:probes expr',
+              'X:callable objects / sequences called by a lookup by name', 'X:templates ended by dtml-return',
+              'X:namespaces taken from a falsy object', 'X:calls expected'):
+        if not c.get(k):
+            inc.append('monitor never evaluated: ' + k)
+    for name, rows in (('X winner kind x form', X_KINDS), ('X winner source x form', SOURCES), ('X tag x form', X_TAGS)):
+        for r in rows:
+            for f in X_FORMS:
+                if not t.get(name, {}).get('%s/%s' % (r, f)):
+                    inc.append('%s: %s never compared in form %s' % (name[2:], r, f))
+    for st in EX_STYLES + ['namespace', 'under', 'pos']:
+        if not t.get('X expressions evaluated (style)', {}).get(st):
+            inc.append('no expression of style %s was evaluated in part X' % st)
+    for tr in TRUTHS[1:]:
+        if not t.get('X falsy client of a template called from an expression', {}).get(tr):
+            inc.append('no template was called from an expression with a client whose truth value is %s' % tr)
     return {'inconclusive': inc,
             'coverage': {'exhaustive': True,
                          'explanation': 'exhaustive: 127 subsets x 3^|S| kind assignments (16383), '
-                                        'falsy winners, S1,S2,S1 call histories, all nests of 14 block kinds to depth %d x 3 '
+                                        'falsy winners, S1,S2,S1 call histories, all nests of 15 block kinds to depth %d x 3 '
                                         'value kinds x exception modes, every block kind / pair of kinds re-entered by a '
                                         'template invoking itself; every source / block kind under 7 spellings of the '
-                                        'names and 3 tag syntaxes; seeded: mixed 8-kind assignments, long histories, '
+                                        'names and 3 tag syntaxes; every tag taking a name or an expression x 7 forms x '
+                                        '7 winner sources x 8 value kinds; every block subject as an expression x 6 '
+                                        'spellings; falsy clients / objects for every client shape and object-based '
+                                        'block kind; seeded: mixed 8-kind assignments, long histories, '
                                         'self-invoking nests over seeded trees' % maxd,
                          'subsets_rendered': len(subsets),
+                         'engine_internals_never_entered (diagnosis)': unreached,
                          'nest_kinds': NEST_KINDS, 'design_kinds': DESIGN_KINDS}}
 
 
@@ -1413,8 +1789,10 @@ def replay(ctx, rep):
               c.get('sp', 0), c.get('syntax', 'html'))
     elif c['part'] == 'H':
         run_h(ctx, c['hist'])
+    elif c['part'] == 'X':
+        run_x(ctx, c['xs'], c['mask'], tuple(c['kinds']), c['variant'], c.get('sp', 0), c.get('syntax', 'html'))
     elif c['part'] == 'R':
         run_r(ctx, tuple(c['kinds']), c['vk'], c['bs'], c['rec'])
     else:
         run_b(ctx, tuple(c['kinds']), c['vk'], c['bs'], tuple(c['exc']) if c.get('exc') else None,
-              c.get('sp', 0), c.get('syntax', 'html'))
+              c.get('sp', 0), c.get('syntax', 'html'), c.get('alt'))
